@@ -414,6 +414,12 @@ func (w *blobWriter) Commit(digest ociregistry.Digest) (ociregistry.Descriptor, 
 	w.mu.Lock()
 	defer w.mu.Unlock()
 	if err := w.flush(nil, digest); err != nil {
+		// The data that we tried to send stays in the buffer. Don't let
+		// a Close that tidies up after the failed commit send it
+		// again: if it was refused because the registry hadn't got as
+		// far as its offset, the registry might have got there since.
+		w.closed = true
+		w.closeErr = err
 		return ociregistry.Descriptor{}, fmt.Errorf("cannot flush data before commit: %w", err)
 	}
 	return ociregistry.Descriptor{
